@@ -146,7 +146,10 @@ def run_C13(tier, seed):
     q = Q(tier)
     res = [stages.transcript_stage("C13", tier, omits=(), extra_negs=[("rng_not_rebuilt", stages.transcript_cfg(rebuild=False), "SeesAll")])]
     # every degree, seeded and unseeded, several sizes: nonces read off the proof points, provenance, distinctness, cross-run freshness
-    sc, _ = stages.pick_scenarios("hedge", tier, seed, lambda s: s["sc"]["members"][0]["rng"] == "chacha", 10 if q else 80, prop="C13")
+    sc, _ = stages.pick_scenarios("hedge", tier, seed, lambda s: s["sc"]["members"][0]["rng"] == "chacha" and s["sc"]["members"][1]["rvar"] == 0, 8 if q else 80, prop="C13")
+    # the same inputs proved twice with different external RNG streams (seeded and unseeded): all such pairs
+    rv, _ = stages.pick_scenarios("hedge", tier, seed, lambda s: s["sc"]["members"][0]["rng"] == "chacha" and s["sc"]["members"][1]["rvar"] == 1, 1000, prop="C13")
+    sc = rv + sc
     sc2, _ = stages.pick_scenarios("complete", tier, seed, lambda s: honest(s) and nm_of(s) <= (8 if q else 32), 14 if q else 150, prop="C13")
     res.append(stages.trace_stage("C13", "nonces", sc + sc2, seed, module="TraceProve", consts={"Strict": "FALSE", "CheckArith": "TRUE", "CrossFresh": "TRUE"}, calls="prove"))
     return res
